@@ -28,7 +28,7 @@ def _jobs(tier):
 
 
 def plan(tier):
-    return {"n": len(_jobs(tier)), "floor": 200 if tier == "quick" else 5000, "samples": 3}
+    return {"n": len(_jobs(tier)), "floor": 200 if tier == "quick" else 2500, "samples": 3}
 
 
 def rule(tier):
